@@ -243,7 +243,27 @@ def handle (req : Json) : Json :=
           pure [("from_proto", Json.arr (l.map (fun t => tyJ (fromProto t))).toArray)]
         | _ => pure []
       pure (a ++ b)
-    return Json.mkObj (base ++ extra ++ vpExtra ++ suppExtra ++ protoExtra)) with
+    -- the body's formal argument types of loop / scan / sequence_map (computed from the operands)
+    let tysOf (vs : List Nat) : Option (List Ty) := allSome (vs.map (fun v => (c.info v).ty))
+    let formalsJ (o : Option (List Ty)) : Json := match o with
+      | some l => Json.arr (l.map tyJ).toArray
+      | none => Json.str "raises"
+    let formalsExtra ← match (req.getObjVal? "formals").toOption with
+      | some fj => do
+        let kind ← fj.getObjValAs? String "kind"
+        match kind, c.args with
+        | "loop", [_, _, .list vs] => pure [("formals", formalsJ ((tysOf vs).map loopFormals))]
+        | "scan", [.list vs] => do
+          let n ← fj.getObjValAs? Int "num_scan"
+          pure [("formals", formalsJ ((tysOf vs).bind (fun ts => scanFormals ts n)))]
+        | "seqmap", [.var v, .list vs] =>
+          pure [("formals", formalsJ (match (c.info v).ty, tysOf vs with
+            | some t, some ts => seqMapFormals t ts
+            | _, _ => none))]
+        | "if", _ => pure [("formals", formalsJ (some []))]
+        | _, _ => pure []
+      | none => pure []
+    return Json.mkObj (base ++ extra ++ vpExtra ++ suppExtra ++ protoExtra ++ formalsExtra)) with
   | .ok j => j
   | .error e => Json.mkObj [("error", e)]
 
